@@ -20,6 +20,13 @@ pub struct FrameLayout {
 /// Appends one frame.  `sections` are in *logical* order (LfGlobal, LfGroups,
 /// HfGlobal, pass groups; or a single combined section).
 pub fn write_frame(out: &mut Vec<u8>, fh: &FrameHeaderSpec, ih: &ImageHeaderSpec, sections: &[Vec<u8>], permute: bool, src: &mut Src) -> FrameLayout {
+    let n = sections.len();
+    let perm: Option<Vec<usize>> = if permute && n > 1 { Some(gen_permutation(src, n, 0)) } else { None };
+    write_frame_with_perm(out, fh, ih, sections, perm, &CodeOpts::default(), src)
+}
+
+/// Same with an explicit permutation (`perm[logical] = position in the bitstream`).
+pub fn write_frame_with_perm(out: &mut Vec<u8>, fh: &FrameHeaderSpec, ih: &ImageHeaderSpec, sections: &[Vec<u8>], perm: Option<Vec<usize>>, toc_code: &CodeOpts, src: &mut Src) -> FrameLayout {
     let mut lay = FrameLayout { frame_start: out.len(), ..Default::default() };
     let n = sections.len();
     assert_eq!(n as u32, toc_entry_count(fh, ih), "section count does not match the TOC entry count");
@@ -27,12 +34,12 @@ pub fn write_frame(out: &mut Vec<u8>, fh: &FrameHeaderSpec, ih: &ImageHeaderSpec
     write_frame_header(&mut w, fh, ih, src);
     let hdr_bits = w.num_bits();
     // perm[logical] = position in the bitstream
-    let perm: Vec<usize> = if permute && n > 1 { gen_permutation(src, n, 0) } else { (0..n).collect() };
-    let permuted = permute && n > 1;
+    let permuted = perm.is_some();
+    let perm: Vec<usize> = perm.unwrap_or_else(|| (0..n).collect());
     w.bit(permuted);
     if permuted {
         let ops = permutation_ops(&perm, 0, if src.chance(32) { src.range(0, 3) as usize } else { 0 });
-        let code = EntropyCode::generate(src, 8, &[&ops], &CodeOpts::default());
+        let code = EntropyCode::generate(src, 8, &[&ops], toc_code);
         code.write_header(&mut w, src);
         code.write_stream(&mut w, &ops, true);
     }
